@@ -34,6 +34,9 @@ func (r *ComDoc) readDir() error {
 	cooked := make([]DirEnt, count)
 	rootIndex := -1
 	visited := 0
+	if err := checkChainStart(r.SAT, r.Header.DirNextSector); err != nil {
+		return err
+	}
 	for sector := r.Header.DirNextSector; sector >= 0; sector = r.SAT[sector] {
 		// a chain can't be longer than the table it is threaded through
 		if visited++; visited > len(r.SAT) {
@@ -50,6 +53,16 @@ func (r *ComDoc) readDir() error {
 			}
 			if raw.Type == DirRoot {
 				rootIndex = len(files) + i
+			}
+			// the chain of a small stream runs through the short table
+			table := r.SAT
+			if raw.Type == DirStream && raw.StreamSize < r.Header.MinStdStreamSize {
+				table = r.SSAT
+			}
+			if raw.Type == DirRoot || (raw.Type == DirStream && raw.StreamSize > 0) {
+				if err := checkChainStart(table, raw.NextSector); err != nil {
+					return err
+				}
 			}
 		}
 		files = append(files, cooked...)
